@@ -750,6 +750,15 @@ func (g *c14Gen) summaryCanonical() {
 	get("2-of-8", "8-of-8", "1-of-2", "2-of-2", "As-Is", "5-of-8")
 	e.send(c14Req{"POST", c14Api + "/solutions", c14Csv, b + "ragged, 1, 2\n"}) // refused: b stays in force
 	get("2-of-2", "8-of-8")
+	// scenario posts refused at every stage (not TOML; interpreter error; a readable file that is no data-set meta-file, which
+	// fails only when the model initialises): the scenario AND the summary in force stay in force
+	for _, bad := range []string{"This isn't TOML", strings.Replace(g.valid, `Type = "CatchmentModel"`, `Type = "NullModel"`, 1),
+		strings.Replace(g.valid, "testdata/ValidModel.csv", "testdata/ValidSubcatchments.csv", 1),
+		strings.Replace(g.valid, "testdata/ValidModel.csv", "testdata/ValidGullies.csv", 1)} {
+		e.send(c14Req{"POST", c14Api + "/scenario", c14Toml, bad})
+		e.send(c14Req{"GET", c14Api + "/solutions", "", ""})
+		get("1-of-2", "As-Is")
+	}
 	a2 := g.summaryWith(d, long, encs, "long again, other encodings")
 	e.send(c14Req{"POST", c14Api + "/solutions", c14Csv, a2})
 	get("2-of-2", "8-of-8", "1-of-8")
